@@ -58,6 +58,8 @@ class Table:
         A.require(len(lit) == 1, "ProgramOptions: option name is not a string literal")
         full = lit[0]["value"]
         name, _, short = full.partition(",")
+        dl = [y for y in A.walk(args[-1]) if y["k"] == "StringLiteral"]
+        descr = dl[0]["value"] if dl else ""
         vtype = field = None
         has_default = has_implicit = multitoken = False
         default_text = None
@@ -82,8 +84,8 @@ class Table:
                         multitoken = True
             A.require(vtype is not None, "ProgramOptions: option %s has a semantic that is not po::value<T>(&field)" % name)
         self.options.append(Option(name=name, short=short, vtype=vtype, field=field, has_default=has_default,
-                                   has_implicit=has_implicit, multitoken=multitoken, group=group, line=x["line"],
-                                   default_text=default_text))
+                                   has_implicit=has_implicit, multitoken=multitoken, group=group, line=lit[0]["line"],
+                                   default_text=default_text, descr=descr))
 
     def members(self, group):
         """all options reachable from a group through .add()"""
